@@ -1,0 +1,76 @@
+//go:build verif
+
+package store
+
+// Test-only hooks for the external verification harness in /verif (build tag `verif`): exported thin wrappers around the
+// unexported key builders of the indexer and the store, so that an external package can analyse the keys for collisions.
+// Nothing here changes behaviour of existing code.
+
+import "github.com/canopy-network/canopy/lib"
+
+// VerifIndexerKeys exposes every key builder of the indexer under its own name
+type VerifIndexerKeys struct{ t *Indexer }
+
+// VerifNewIndexerKeys returns the wrapper (the builders do not touch the database)
+func VerifNewIndexerKeys() VerifIndexerKeys { return VerifIndexerKeys{t: &Indexer{}} }
+
+func (v VerifIndexerKeys) TxHashKey(hash []byte) []byte { return v.t.txHashKey(hash) }
+func (v VerifIndexerKeys) TxHeightKey(h uint64) []byte  { return v.t.txHeightKey(h) }
+func (v VerifIndexerKeys) TxHeightAndIndexKey(h, i uint64) []byte {
+	return v.t.txHeightAndIndexKey(h, i)
+}
+func (v VerifIndexerKeys) TxSenderKey(a, hi []byte) []byte    { return v.t.txSenderKey(a, hi) }
+func (v VerifIndexerKeys) TxRecipientKey(a, hi []byte) []byte { return v.t.txRecipientKey(a, hi) }
+func (v VerifIndexerKeys) BlockHashKey(hash []byte) []byte    { return v.t.blockHashKey(hash) }
+func (v VerifIndexerKeys) BlockHeightKey(h uint64) []byte     { return v.t.blockHeightKey(h) }
+func (v VerifIndexerKeys) QCHeightKey(h uint64) []byte        { return v.t.qcHeightKey(h) }
+func (v VerifIndexerKeys) CheckpointsCommitteeKey(c uint64) []byte {
+	return v.t.checkpointsCommitteeKey(c)
+}
+func (v VerifIndexerKeys) CheckpointKey(c, h uint64) []byte { return v.t.checkpointKey(c, h) }
+func (v VerifIndexerKeys) DoubleSignerHeightKey(a []byte, h uint64) []byte {
+	return v.t.doubleSignerHeightKey(a, h)
+}
+func (v VerifIndexerKeys) DoubleSignerPrefix() []byte { return lib.JoinLenPrefix(doubleSignerPrefix) }
+func (v VerifIndexerKeys) BlockHeightPrefix() []byte  { return lib.JoinLenPrefix(blockHeightPrefix) }
+func (v VerifIndexerKeys) EventHashKey(hash []byte) []byte {
+	return v.t.key(eventHashPrefix, hash, nil)
+}
+func (v VerifIndexerKeys) EventHeightKey(h uint64) []byte { return v.t.eventHeightKey(h) }
+func (v VerifIndexerKeys) EventHeightAndIndexKey(h, i uint64) []byte {
+	return v.t.eventHeightAndIndexKey(h, i)
+}
+func (v VerifIndexerKeys) EventBlockHeightKey(h uint64) []byte { return v.t.eventBlockHeightKey(h) }
+func (v VerifIndexerKeys) EventChainIdKey(c uint64, hi []byte) []byte {
+	return v.t.eventChainIdKey(c, hi)
+}
+func (v VerifIndexerKeys) EventAddressKey(a, hi []byte) []byte { return v.t.eventAddressKey(a, hi) }
+func (v VerifIndexerKeys) StateChangeVersionPrefix(version uint64) []byte {
+	return v.t.stateChangeVersionPrefix(version)
+}
+func (v VerifIndexerKeys) StateChangeKey(version uint64, stateKey []byte) []byte {
+	return lib.Append(v.t.stateChangeVersionPrefix(version), stateKey)
+}
+
+// VerifStorePrefixes returns the top-level key spaces of the store by name
+func VerifStorePrefixes() map[string][]byte {
+	return map[string][]byte{
+		"latestState":     latestStatePrefix,
+		"historicState":   historicStatePrefix,
+		"stateCommitment": stateCommitmentPrefix,
+		"indexer":         indexerPrefix,
+		"stateCommitID":   stateCommitIDPrefix,
+		"lastCommitID":    lastCommitIDPrefix,
+	}
+}
+
+// VerifCommitIDKey returns the key of the commit-id record of a version
+func VerifCommitIDKey(version uint64) []byte { return (&Store{}).commitIDKey(version) }
+
+// VerifTreeNodeKey returns the key under which the state commitment tree persists the node with the given (encoded) node key
+func VerifTreeNodeKey(nodeKey []byte) []byte {
+	return lib.Append(stateCommitIDPrefix, lib.JoinLenPrefix(nodeKey))
+}
+
+// VerifPrefixEnd exposes the upper bound the versioned store uses for a prefix iteration
+func VerifPrefixEnd(prefix []byte) []byte { return prefixEnd(prefix) }
